@@ -39,6 +39,11 @@ Definition judge (op : bytes) (args : list sx) (impl : sx) : sx :=
     else if bytes_eqb op (s2b "mem") then judge_mem args impl
     else if bytes_eqb op (s2b "sxg_verdict_roundtrip") then judge_verdict_roundtrip args impl
     else sx_eqb m impl in
+  (* an undecided model answer leaves every RESULT open, but not a run-time panic, a hang or a dead
+     process: none of the undecided classes (URLs outside the URL model) is one where the code panics
+     on purpose *)
+  let abnormal :=
+    sx_eqb impl (SL [sym "panic"]) || sx_eqb impl (SL [sym "timeout"]) || sx_eqb impl (SL [sym "crashed"]) in
   if same then SL [sym "ok"]
-  else if has_undecided 6 m then SL [sym "skip"]
+  else if has_undecided 6 m && negb abnormal then SL [sym "skip"]
   else SL [sym "diff"; m].
